@@ -25,9 +25,9 @@ def main():
         try:
             mod = importlib.import_module("pv.props." + pid.lower())
             meta = getattr(mod, "META", None)
-        except Exception as e:  # a module under construction never breaks the manifest
-            print("skip", pid, "import failed:", e)
-            meta = None
+        except Exception as e:  # a module that does not import must never silently drop a claim
+            print("ERROR", pid, "import failed:", e, "- MANIFEST.json left as it is")
+            raise SystemExit(3)
         if not meta or not meta.get("claimed", False):
             na.append({"property_id": pid, "reason": (meta or {}).get("reason", NOT_BUILT)})
             continue
